@@ -109,6 +109,8 @@ func ptrConverter(dec *Decoder, o interface{}, p interface{}) {
 	}
 	if converter := GetConverter(reflect.TypeOf(o), t); converter != nil {
 		converter(dec, o, t2.PackEFace(*ptr))
+	} else {
+		dec.convertReference(o, t2.PackEFace(*ptr))
 	}
 }
 
